@@ -123,6 +123,9 @@ def check_desc(ctx, m, exp, route, head, mech=None):
     ctx.ev()
     ctx.count('descriptions[%s]' % route)
     problems = [k for k in exp if got[k] != exp[k]]
+    # defaults are the function's own default objects, not copies of them
+    if 'optional' not in problems and any(got['optional'][k] is not exp['optional'][k] for k in exp['optional']):
+        problems.append('optional-values-not-identical')
     if not set(got['required']) <= set(got['positional']):
         problems.append('required-not-subset-of-positional')
     if problems:
@@ -187,14 +190,29 @@ def run_c18(ctx, rng, job):
           opt_b = fromFunction(g2).getSignatureInfo()['optional']
           if 'zz_poison' in opt_b or 'zz_poison2' in opt_b or 'zz_poison' in m_b.getSignatureInfo()['optional']:
               ctx.violation('optional-mapping-shared-between-descriptions', {'def': head}, abort=False)
-          I = InterfaceClass('IBody', (Interface,), {'meth': f}, __module__=util.fresh_module())
+          I = InterfaceClass('IBody', (Interface,), {'meth': f, 'alias': f}, __module__=util.fresh_module())
           check_desc(ctx, I['meth'], exp, 'interface-body', head)
+          # function attributes are tagged values of the description whichever way it was made; a description made for
+          # an interface under a given name knows both
+          ctx.ev(3)
+          for route_, d_ in (('interface-body', I['meth']), ('interface-body-alias', I['alias'])):
+              if d_.queryTaggedValue('tagged') != ('tag', idx) or d_.queryTaggedValue('other') != idx:
+                  ctx.violation('function-attributes-not-tagged-values', {'def': head, 'route': route_}, abort=False)
+          if I['alias'].getName() != 'alias' or I['meth'].getName() != 'meth' or I['alias'].interface is not I:
+              ctx.violation('name-or-doc', {'def': head, 'route': 'interface-body', 'alias': I['alias'].getName()}, abort=False)
+          mk_ = fromFunction(f, I, name='given')
+          if mk_.getName() != 'given' or mk_.interface is not I or mk_.queryTaggedValue('tagged') != ('tag', idx):
+              ctx.violation('name-or-doc', {'def': head, 'route': 'fromFunction(interface=, name=)'}, abort=False)
           # (2) bound method: leading self removed
           fs, heads = mkfunc('meth', self_first=True, vname=vname, kname=kname, **g)
           C = type('C', (object,), {'meth': fs})
           bound = C().meth
           expb = expected_info(inspect.signature(bound))
+          fs.tagged_m = ('mtag', idx)
           check_desc(ctx, fromMethod(bound), expb, 'fromMethod-bound', heads)
+          ctx.ev()
+          if fromMethod(bound).queryTaggedValue('tagged_m') != ('mtag', idx):
+              ctx.violation('function-attributes-not-tagged-values', {'def': heads, 'route': 'fromMethod-bound'}, abort=False)
           check_desc(ctx, fromMethod(fs), expb, 'fromMethod-function', heads)
           check_desc(ctx, fromFunction(fs, imlevel=1), expb, 'fromFunction-imlevel1', heads)
           # (2b) methods that take their instance through *args (no named self)
